@@ -18,7 +18,9 @@ ASSUMPTIONS = ["paths are absolute and normalised (pathlib / os.path are trusted
                "highest_common_root_folder is evaluated on paths that exist on disk (a dotted name is a directory iff the file system says so)"]
 TRUSTED_BASE = ["pathlib.PurePath.relative_to, os.path.relpath, Path.resolve"]
 
-NAMES = ["a", "b", "data", "my dir", "v1.2", "x.y", "sub", "deep", "n1", "cfg.d"]
+# sibling names that share character prefixes on purpose (a / a b / ab, v1 / v1.2, data / data.bak, n1 / n10):
+# a common root is a matter of whole path components, never of characters
+NAMES = ["a", "b", "ab", "a b", "data", "data.bak", "my dir", "v1", "v1.2", "x.y", "sub", "deep", "n1", "n10", "cfg.d"]
 FILES = ["f", "g.txt", "dict", "p q", "h.json", "k.tar.gz"]
 
 
